@@ -451,6 +451,16 @@ def same_value(ctx, got, want, what, data):
     ctx.prove(tg == tw, what, data)
 
 
+def _kinds(node):
+    out = set()
+    if isinstance(node, (tuple, list)):
+        if node and isinstance(node[0], str):
+            out.add(node[0])
+        for x in node:
+            out |= _kinds(x)
+    return out
+
+
 def scenario(ctx, template, depth):
     m = P()
     bi = m['bi']
@@ -485,6 +495,16 @@ def scenario(ctx, template, depth):
                 got1.append(s1.next())
         except m['stm'].StopStream:
             pass
+        # a stream that has ended stays ended (Pif is a function stream: like Pfunc it has no "ended" state of its own,
+        # its documented end is the first StopStream of an operand)
+        if len(got2) < CAP and 'if' not in _kinds(node):
+            for _ in range(2):
+                try:
+                    extra = s2.next()
+                except m['stm'].StopStream:
+                    continue
+                raise Violation(f'the stream of {render(node)} ended after {len(got2)} values and yields {extra!r} when '
+                                'asked again', None, data('after-end'))
         # embedded in place: what follows the pattern in a sequence receives the input value of its own step
         echo = None
         if len(want) < CAP - 1:
@@ -640,6 +660,13 @@ def _replay_scenario(ctx, template, depth):
         pass
     if len(b) != len(want) or not all(close(g, w) for g, w in zip(b, want)):
         raise Violation(f'a second stream of the same pattern yields {b}, expected {want}', None, None)
+    if len(b) < CAP and 'if' not in _kinds(node):
+        for _ in range(2):
+            try:
+                extra = s2.next()
+            except m['stm'].StopStream:
+                continue
+            raise Violation(f'the stream ended after {len(b)} values and yields {extra!r} when asked again', None, None)
     if len(want) < CAP - 1:
         s3 = m['lsp'].Pseq([pat, m['fnp'].Pfuncn(lambda inval: inval, 1)], 1).__stream__()
         echo = None
